@@ -1028,7 +1028,24 @@ func (r *Runner) CheckUpload(u *MUpload) []Disc {
 	for _, p := range doc.Parts {
 		got = append(got, fmt.Sprintf("%d:%d:%s", p.PartNumber, p.Size, p.ETag))
 	}
+	// a page holds at most 1000 parts: follow the server's marker for the rest
+	for pages := 0; doc.IsTruncated && pages < 12; pages++ {
+		resp = r.do(r.req("GET", u.B, u.Key, s3x.Q("uploadId", u.ID, "part-number-marker", fmt.Sprint(doc.NextPartNumberMarker)), nil, nil))
+		if d := expectStatus(resp, 200, "next page of ListParts of pending upload "+u.ID); d != nil {
+			return d
+		}
+		doc = s3x.ListPartsDoc{}
+		if err := resp.XML(&doc); err != nil {
+			return fail("bad-xml", "ListPartsResult: %v", err)
+		}
+		for _, p := range doc.Parts {
+			got = append(got, fmt.Sprintf("%d:%d:%s", p.PartNumber, p.Size, p.ETag))
+		}
+	}
 	if !eq(got, want) {
+		if len(got) > 40 || len(want) > 40 {
+			return fail("parts-mismatch", "ListParts(%s) returned %d parts, the upload holds %d; first difference at index %d", u.ID, len(got), len(want), firstDiff(got, want))
+		}
 		return fail("parts-mismatch", "ListParts(%s) = %v want %v", u.ID, got, want)
 	}
 	return nil
@@ -1180,4 +1197,16 @@ func (r *Runner) APIStep(op Op) ([]Disc, bool) {
 		return nil, true
 	}
 	return nil, false
+}
+
+func firstDiff(a, b []string) int {
+	for i := 0; i < len(a) && i < len(b); i++ {
+		if a[i] != b[i] {
+			return i
+		}
+	}
+	if len(a) < len(b) {
+		return len(a)
+	}
+	return len(b)
 }
